@@ -5,6 +5,8 @@ Compilation functions.
 import sys
 import os.path
 import base64
+import io
+import tokenize
 import json
 from dataclasses import dataclass
 import traceback
@@ -123,9 +125,12 @@ def compile_string(script: str) -> CompilerOutput:
     Returns:
         CompilerOutput: The Compiler Output
     """
-    # "utf-8-sig": a program text that starts with a byte order mark is read as the file loader
-    # reads it (the mark is not part of the program)
-    decoded_program = base64.b64decode(script).decode("utf-8-sig")
+    # The bytes are decoded as the file loader decodes a program file: a byte order mark is
+    # not part of the program, and an encoding declaration (PEP 263) in the first two lines
+    # names the encoding (UTF-8 otherwise).
+    program_bytes = base64.b64decode(script)
+    encoding, _ = tokenize.detect_encoding(io.BytesIO(program_bytes).readline)
+    decoded_program = program_bytes.decode(encoding)
     temp_name = "temp_program"
     spec = importlib.util.spec_from_loader(temp_name, loader=None)
     module = importlib.util.module_from_spec(spec)
